@@ -211,13 +211,8 @@ func (p poolScn) scenario(bound int) Scenario {
 						pr = append(pr, fmt.Sprintf("task %d executed %d times (finished %d), want exactly once", k, st, fi))
 					}
 				}
-				want := p.w
-				if want <= 0 {
-					want = 1
-				}
-				if o.workersSeen != want {
-					pr = append(pr, fmt.Sprintf("pool of size %d started %d workers, want %d", p.w, o.workersSeen, want))
-				}
+				// (how many goroutines the pool starts, and when, is its own business: the limit and its
+				// usability are judged by what runs together, in C08 and in the limit scenarios here)
 			}
 		}
 		// outcome: the order in which tasks started and finished
